@@ -420,8 +420,9 @@ struct Digit {
                         return QNumberType::Real;
                     }
 
-                    if (number.Natural <= 0x7FFFFFFFFFFFFFFFULL) {
-                        number.Integer = -number.Integer;
+                    if (number.Natural <= 0x8000000000000000ULL) {
+                        // Negate as unsigned: the magnitude 2^63 is the minimum of the signed type.
+                        number.Natural = (~number.Natural + 1U);
                         return QNumberType::Integer;
                     }
                 }
